@@ -322,9 +322,19 @@ func (p c03) Run(c *core.Ctx, idx int) {
 		}
 		if outcome == dp.OK {
 			model = norm(scratch)
-			if d := dp.Diff(s, model, snap, cmp); d != "" {
+			stepCmp := cmp
+			if goSrc != nil {
+				// a keyed Go map hands its entries out in key order, not in the order the source tree lists them: new entries
+				// arrive in that order
+				stepCmp.IgnoreListOrder = true
+			}
+			if d := dp.Diff(s, model, snap, stepCmp); d != "" {
 				c.Violate("result/"+sigBase+"/"+diffClass(d)+storeSig(storeName), "%s: target differs from the keyed deep merge:\n%s\n%s\nactual target:\n%s", desc, d, wit(), snap.Dump(s))
 				return
+			}
+			if goSrc != nil && !cmp.IgnoreListOrder {
+				// go on from the order the entries actually arrived in
+				model = norm(snap.Clone())
 			}
 		} else {
 			// failed as specified; the statement defines no rollback: continue from the store's actual content
